@@ -169,8 +169,9 @@ func (c *Conversation) receiveDecoded(message messageWithHeader) (plain MessageP
 		plain, toSend, err = c.receiveAKEMessage(msgType, messageBody)
 	}
 
-	if err != nil && previousTheirInstanceTag == 0 {
-		// the peer's instance tag is learnt only from a message that turns out to be well-formed
+	if previousTheirInstanceTag == 0 && (err != nil || msgType == msgTypeData) {
+		// the peer's instance tag is learnt only from a message that turns out to be well-formed; a data message
+		// that arrives before any key exchange cannot even be parsed, whether or not its flag suppresses the error
 		c.theirInstanceTag = 0
 	}
 
